@@ -36,9 +36,11 @@ Obs(r, from) ==
   /\ (r[1] = 0 => r[11] = 0)                         \* the call that returned succeeded
   /\ (r[1] \in {404, 408, 410} => dropped' = r[3])  \* hooks that carry logt_dropped_messages
   /\ r[12] = Via(from)
-  /\ IF r[4] >= 0                                    \* the arrival hook names the lock object
-       THEN r[4] # 0 /\ lk \in {0, r[4]} /\ lk' = r[4]
-       ELSE lk' = lk
+(* every lock / unlock of one incarnation of the logging thread names the same, non-NULL lock object *)
+LockId(r, newthread) ==
+  IF r[4] >= 0                                       \* the arrival hook names the lock object
+    THEN r[4] # 0 /\ (newthread \/ lk \in {0, r[4]}) /\ lk' = r[4]
+    ELSE lk' = (IF newthread THEN 0 ELSE lk)
 
 TStep(ev) ==
   LET a == ev.a  r == ev.r IN
@@ -55,9 +57,8 @@ TStep(ev) ==
             /\ wpc = WPc(a[2])
             /\ WNext
             /\ wpc' = WPc(r[1])
-  /\ IF a[1] = 1 /\ a[3] = 6 /\ wpc = "none" /\ wpc' = "wait"      \* a new logging thread: a new lock object
-       THEN Obs(r, a[2]) /\ lk' = 0
-       ELSE Obs(r, a[2])
+  /\ Obs(r, a[2])
+  /\ LockId(r, a[1] = 1 /\ a[3] = 6 /\ wpc = "none" /\ wpc' = "wait")     \* a new logging thread: a new lock object
 
 ResetState ==
   /\ inited' = FALSE /\ inits' = 0 /\ tstate' = "unused" /\ threaded' = FALSE
